@@ -5,6 +5,7 @@ from django.template import Context, Template
 
 from django_components import Component, ComponentRegistry, NotRegistered, types
 from django_components.component_registry import all_registries
+from django_components.util.context import snapshot_context
 
 
 class DynamicComponent(Component):
@@ -112,10 +113,16 @@ class DynamicComponent(Component):
 
         comp_class = self._resolve_component(comp_name_or_class, registry)
 
+        # NOTE: The inner component is rendered only later, in `on_render_before`. By that time the
+        # `Context` objects we were called with may have already left the scopes (e.g. `{% for %}`
+        # or `{% with %}`) inside which the dynamic component was used. So we make the snapshots now.
+        outer_context = snapshot_context(self.outer_context) if self.outer_context is not None else None
+
         return {
             "comp_class": comp_class,
             "args": args,
             "kwargs": kwargs,
+            "_djc_dynamic_contexts": (snapshot_context(self.input.context), outer_context),
         }
 
     # NOTE: The inner component is rendered in `on_render_before`, so that the `Context` object
@@ -126,14 +133,15 @@ class DynamicComponent(Component):
         comp_class = context["comp_class"]
         args = context["args"]
         kwargs = context["kwargs"]
+        input_context, outer_context = context["_djc_dynamic_contexts"]
 
         comp = comp_class(
             registered_name=self.registered_name,
-            outer_context=self.outer_context,
+            outer_context=outer_context,
             registry=self.registry,
         )
         output = comp.render(
-            context=self.input.context,
+            context=input_context,
             args=args,
             kwargs=kwargs,
             slots=self.input.slots,
